@@ -760,6 +760,9 @@ pub struct RpCase {
     pub response_body: Vec<u8>,
     pub client_payload: Vec<u8>,
     pub origin_payload: Vec<u8>,
+    /// the client sends an X-Original-Protocol header of its own (0 = none, 1 HTTP3, 2 HTTP1, 3 junk, 4 two of them)
+    #[serde(default)]
+    pub own_protocol_header: u8,
 }
 
 pub struct RpSuite;
@@ -810,7 +813,7 @@ impl Suite for RpSuite {
         "reverse-proxy"
     }
     fn rule(&self) -> String {
-        "reverse proxy configured towards a loopback origin owned by the harness, with allow_private_network_connections false and true; HTTP/1.1 requests on a reverse-proxy host or on the main host (Upgrade header + path under the mask); the client names the proxy host or a decoy (a second listening canary) in Host / absolute URI; the origin answers 101 / 200 with a body and more bytes, the client sends more bytes; oracle: the configured origin - and never the decoy - receives exactly one HTTP/1.1 request with the same method and request target (path and, in one case in two, a query string) and an X-Original-Protocol header, the client receives the origin's status, body and following bytes unchanged, the origin receives the client's following bytes unchanged, no credentials are demanded, whatever the egress policy; non-trivial = policy disallows private destinations or the client names the decoy".into()
+        "reverse proxy configured towards a loopback origin owned by the harness, with allow_private_network_connections false and true; HTTP/1.1 requests on a reverse-proxy host or on the main host (Upgrade header + path under the mask); the client names the proxy host or a decoy (a second listening canary) in Host / absolute URI; the origin answers 101 / 200 with a body and more bytes, the client sends more bytes; oracle: the configured origin - and never the decoy - receives exactly one HTTP/1.1 request with the same method and request target (path and, in one case in two, a query string) and exactly one X-Original-Protocol header naming HTTP1 - also when the client sent headers of that name itself (HTTP3, HTTP1, junk, two of them) -, the client receives the origin's status, body and following bytes unchanged, the origin receives the client's following bytes unchanged, no credentials are demanded, whatever the egress policy; non-trivial = policy disallows private destinations or the client names the decoy".into()
     }
     fn strategy(&self, _: Tier) -> BoxedStrategy<RpCase> {
         (
@@ -824,8 +827,9 @@ impl Suite for RpSuite {
             prop::collection::vec(any::<u8>(), 0..200),
             prop::collection::vec(any::<u8>(), 0..200),
             prop::collection::vec(any::<u8>(), 0..200),
+            prop_oneof![2 => Just(0u8), 3 => 1u8..5],
         )
-            .prop_map(|(allow_private, on_host, method, path, host_header, absolute_uri, response_status, response_body, client_payload, origin_payload)| RpCase {
+            .prop_map(|(allow_private, on_host, method, path, host_header, absolute_uri, response_status, response_body, client_payload, origin_payload, own_protocol_header)| RpCase {
                 allow_private,
                 on_host,
                 method: method.to_string(),
@@ -836,6 +840,7 @@ impl Suite for RpSuite {
                 response_body,
                 client_payload,
                 origin_payload,
+                own_protocol_header,
             })
             .boxed()
     }
@@ -882,7 +887,14 @@ impl Suite for RpSuite {
             let (mut io, _srv) = world.serve(Proto::Http1, channel, sni, None, crate::engine::world::peer_v4(), 64 * 1024);
             let named = if c.host_header == "decoy" { decoy.addr.to_string() } else { sni.to_string() };
             let target = if c.absolute_uri { format!("http://{}{}", named, c.path) } else { c.path.clone() };
-            let head = format!("{} {} HTTP/1.1\r\nHost: {}\r\nUpgrade: test\r\nConnection: Upgrade\r\nX-Client: 1\r\n\r\n", c.method, target, named);
+            let own = match c.own_protocol_header % 5 {
+                0 => "",
+                1 => "X-Original-Protocol: HTTP3\r\n",
+                2 => "x-original-protocol: HTTP1\r\n",
+                3 => "X-Original-Protocol: gopher\r\n",
+                _ => "X-Original-Protocol: HTTP3\r\nX-Original-Protocol: HTTP2\r\n",
+            };
+            let head = format!("{} {} HTTP/1.1\r\nHost: {}\r\nUpgrade: test\r\nConnection: Upgrade\r\nX-Client: 1\r\n{}\r\n", c.method, target, named, own);
             io.write_all(head.as_bytes()).await.map_err(|e| engine::Violation { sig: "harness:io".into(), msg: e.to_string() })?;
             // response head + body + origin payload
             let want_after: Vec<u8> = c.response_body.iter().chain(c.origin_payload.iter()).copied().collect();
@@ -954,11 +966,17 @@ impl Suite for RpSuite {
                 r.path,
                 r.version
             );
+            // what the origin is told is the endpoint's statement, not the client's: one header, naming
+            // the protocol the client really used (CONFIGURATION.md: HTTP1 or HTTP3)
+            let told: Vec<String> = r.headers.iter().filter(|h| h.name.eq_ignore_ascii_case("x-original-protocol")).map(|h| String::from_utf8_lossy(h.value).into_owned()).collect();
+            ensure!(!told.is_empty(), "rp:original-protocol-header-missing", "{}: no X-Original-Protocol header reached the origin", what);
             ensure!(
-                r.headers.iter().any(|h| h.name.eq_ignore_ascii_case("x-original-protocol")),
-                "rp:original-protocol-header-missing",
-                "{}: no X-Original-Protocol header reached the origin",
-                what
+                told.len() == 1 && told[0].eq_ignore_ascii_case("HTTP1"),
+                "rp:original-protocol-header-wrong",
+                "{}: the client came over HTTP/1.1{}, the origin was told X-Original-Protocol {:?}",
+                what,
+                if c.own_protocol_header % 5 == 0 { "" } else { " and sent a header of that name itself" },
+                told
             );
             ensure!(
                 r.headers.iter().any(|h| h.name.eq_ignore_ascii_case("x-client")),
